@@ -308,3 +308,225 @@ def simple_product(seed=0, level="1.5", pols=("HH",), scans=(None,), lines=7, pi
     entries = synth.default_summary_entries(order, names["tag"], names["pid"], names["scene"], [(pixels, lines)])
     files["summary.txt"] = synth.summary_text(entries).encode()
     return files, {"names": names, "images": models, "order": order}
+
+
+# ----------------------------------------------------------------------------
+# full random fill: every non-spare field gets an admissible value at once
+
+# fields whose content is constrained by the format (counts, lengths, codes with their own generator, date-times)
+CONSTRAINED = {
+    ("ds", "scene_center_time"), ("mp", "map_projection_designator"),
+    ("pp", "datetime_of_first_point.date"), ("pp", "datetime_of_first_point.seconds_of_day"),
+    ("vd", "logical_volume_creation_datetime"), ("vd", "number_of_file_pointer_records"),
+    ("led_fd", "map_projection.number_of_records"),
+    ("img_fd", "number_of_sar_data_records"), ("img_fd", "sar_data_record_length"),
+    ("img_fd", "sar_related_data_in_the_record.number_of_lines_per_dataset"),
+    ("img_fd", "sar_related_data_in_the_record.number_of_data_groups_per_line"),
+    ("img_fd", "prefix_suffix_data_locators.sar_data_format_type_code"),
+    ("att_head", "number_of_points"), ("dq_head", "number_of_channels"),
+    ("trl_head", "number_of_low_resolution_images"),
+}
+
+
+def random_value(rng, f, classes=None):
+    """-> (value, class name) for one field of the layout"""
+    kind = f["kind"]
+    w = f["width"]
+    if kind == "enum":
+        name = rng.choice(sorted(f["enum"]))
+        code = f["enum"][name]
+        return (code if f["base"].startswith("u") else str(code)), "enum:" + name
+    if kind == "A_int":
+        t, c = int_text(rng, w)
+        return justify(rng, t, w, kind), "int:" + c
+    if kind == "A_float":
+        t, c = float_text(rng, w)
+        return justify(rng, t, w, kind), "float:" + c
+    if kind == "A_str":
+        t, c = str_text(rng, w)
+        return justify(rng, t, w, kind), "str:" + c
+    if kind == "A_complex":
+        a, _ = float_text(rng, w // 2)
+        b, _ = float_text(rng, w // 2)
+        return [a, b], "complex"
+    if kind in ("u8", "u16", "u32", "u64"):
+        bits = int(kind[1:])
+        c = rng.choice(["zero", "max", "rand", "rand", "small", "msb"])
+        v = {"zero": 0, "max": 2 ** bits - 1, "small": rng.randrange(0, 1000) % (2 ** bits),
+             "msb": 2 ** (bits - 1) + rng.randrange(0, 2 ** (bits - 1))}.get(c)
+        if v is None:
+            v = rng.randrange(0, 2 ** bits)
+        return v, f"{kind}:{c}"
+    if kind == "flag":
+        v = rng.choice([0, 1, 1, 2 ** (8 * w) - 1, 256 % (2 ** (8 * w))])
+        return v, "flag:" + ("0" if v == 0 else "nz")
+    if kind == "bytes":
+        return bytes(rng.randrange(1, 256) for _ in range(rng.randrange(0, w + 1))).hex(), "bytes"
+    if kind == "ydms":
+        inst, c = rand_instant(rng)
+        return [inst["year"], inst["doy"], inst["ms"]], "ydms:" + c
+    if kind == "ydus":
+        return rng.randrange(0, 86400 * 10 ** 6), "ydus"
+    raise ValueError(kind)
+
+
+def fill_record(rng, rec, values=None, classes=None, skip_prefix=("preamble.",), spare=False):
+    """random admissible content for every field not yet set (spares stay blank unless spare=True)"""
+    values = dict(values or {})
+    for f in synth.fields(rec):
+        n = f["name"]
+        if n in values or (rec, n) in CONSTRAINED or n.startswith(tuple(skip_prefix)):
+            continue
+        if synth.is_spare(f) and not spare:
+            continue
+        v, c = random_value(rng, f)
+        values[n] = v
+        if classes is not None:
+            classes[c] = classes.get(c, 0) + 1
+    return values
+
+
+def instant_texts(inst):
+    y, m, d = ymd(inst["year"], inst["doy"])
+    ms = inst["ms"]
+    hh, mm, ss, mmm = ms // 3600000, ms // 60000 % 60, ms // 1000 % 60, ms % 1000
+    return {
+        "scene_center_time_ms": f"{y:04d}{m:02d}{d:02d}{hh:02d}{mm:02d}{ss:02d}{mmm:03d}",
+        "scene_center_time_us": f"{y:04d}{m:02d}{d:02d}{hh:02d}{mm:02d}{ss:02d}{mmm:03d}{inst.get('us', 0):03d}",
+        "pp_date": f"{y:4d} {m:2d} {d:2d}",
+        "pp_seconds": f"{ms // 1000}.{mmm:03d}{inst.get('us', 0):03d}",
+        "vol_creation": f"{y:04d}{m:02d}{d:02d}{hh:02d}{mm:02d}{ss:02d}{mmm // 10:02d}",
+    }
+
+
+def full_leader(rng, n_mp=None, n_att=None, att_len=None, n_ch=None, fac_lens=None, designator=None, inst=None,
+                classes=None, spare=False):
+    n_mp = rng.choice([0, 1, 1]) if n_mp is None else n_mp
+    att_len = att_len or rng.choice([16384, 16384, 16 + 120 * rng.randrange(1, 140), 8192])
+    max_pts = (att_len - 16) // 120
+    n_att = n_att if n_att is not None else rng.choice([1, 2, 3, rng.randrange(1, max_pts + 1), max_pts])
+    n_att = max(1, min(n_att, max_pts))
+    n_ch = n_ch if n_ch is not None else rng.choice([1, 2, 4, 8, 16, rng.randrange(1, 17)])
+    fac_lens = fac_lens or [rng.choice([66, 67, 100, 325000 % 4000 + 66, rng.randrange(66, 4300)]) for _ in range(4)]
+    designator = designator or rng.choice(DESIGNATORS)
+    inst = inst or rand_instant(rng)[0]
+    tx = instant_texts(inst)
+    ds = fill_record(rng, "ds", {"scene_center_time": rng.choice([tx["scene_center_time_ms"], tx["scene_center_time_us"]])},
+                     classes, spare=spare)
+    mps = [fill_record(rng, "mp", {"map_projection_designator": designator}, classes, spare=spare) for _ in range(n_mp)]
+    pp = fill_record(rng, "pp", {"datetime_of_first_point.date": tx["pp_date"],
+                                 "datetime_of_first_point.seconds_of_day": tx["pp_seconds"]}, classes, spare=spare)
+    pts = []
+    for k in range(n_att):
+        pi, _ = rand_instant(rng)
+        p = fill_record(rng, "att_pt", {"time.day_of_year": str(pi["doy"]), "time.millisecond_of_day": str(pi["ms"])}, classes)
+        pts.append(p)
+    m = {
+        "led_fd": fill_record(rng, "led_fd", {"map_projection.number_of_records": str(n_mp)}, classes, spare=spare),
+        "ds": ds, "mp": mps, "pp": pp,
+        "att": {"length": att_len, "points": pts},
+        "rad": fill_record(rng, "rad", {}, classes, spare=spare),
+        "dq": {"head": fill_record(rng, "dq_head", {}, classes),
+               "cal": [fill_record(rng, "dq_cal", {}, classes) for _ in range(n_ch)],
+               "geo": fill_record(rng, "dq_geo", {}, classes),
+               "mis": [fill_record(rng, "dq_mis", {}, classes) for _ in range(n_ch)]},
+        "fac": [{"length": L, "raw": "".join(rng.choice(INNER) for _ in range(L - 66))} for L in fac_lens],
+        "f5": fill_record(rng, "f5", {}, classes, spare=spare),
+    }
+    m["dq"]["head"].pop("number_of_channels", None)
+    return m, {"n_mp": n_mp, "n_att": n_att, "att_len": att_len, "n_ch": n_ch, "fac_lens": list(fac_lens),
+               "designator": designator, "inst": inst}
+
+
+def full_volume(rng, n_fp=None, inst=None, classes=None, spare=False):
+    n_fp = rng.choice([0, 1, 3, 5, rng.randrange(0, 17)]) if n_fp is None else n_fp
+    inst = inst or rand_instant(rng)[0]
+    tx = instant_texts(inst)
+    return {
+        "vd": fill_record(rng, "vd", {"logical_volume_creation_datetime": tx["vol_creation"],
+                                      "number_of_file_pointer_records": str(n_fp)}, classes, spare=spare),
+        "fps": [fill_record(rng, "fp", {}, classes, spare=spare) for _ in range(n_fp)],
+        "txt": fill_record(rng, "txt", {}, classes, spare=spare),
+    }, {"n_fp": n_fp, "inst": inst}
+
+
+PER_FILE_CONSTANTS = {
+    "sar_image_data_record_index", "sensor_parameters_update_flag", "scan_id", "sar_channel_code", "sar_channel_id",
+    "onboard_range_compressed_flag", "chirp_type_designator", "platform_position_parameters_update_flag",
+    "alos2_frame_number", "geographic_reference_parameter_update_flag", "transmitted_pulse_polarization",
+    "received_pulse_polarization",
+}
+
+
+def full_image(rng, rng_np, typ, lines, pixels, pattern="random", classes=None, optional_header=None, spare=False):
+    rec = synth.REC[typ][0]
+    const = {}
+    for f in synth.fields(rec):
+        if f["name"] in PER_FILE_CONSTANTS:
+            const[f["name"]], c = random_value(rng, f)
+    prefix = []
+    for i in range(lines):
+        p = dict(const)
+        inst, _ = rand_instant(rng)
+        p["sensor_acquisition_date"] = [inst["year"], inst["doy"], inst["ms"]]
+        if rec == "sig":
+            p["sensor_acquisition_date_microseconds"] = inst["ms"] * 1000 + inst["us"]
+        prefix.append(fill_record(rng, rec, p, classes, spare=spare))
+    fd = fill_record(rng, "img_fd", {}, classes, spare=spare)
+    opt = ["prefix_suffix_data_locators.maximum_data_range_of_pixel", "prefix_suffix_data_locators.number_of_burst_data",
+           "prefix_suffix_data_locators.number_of_lines_per_burst",
+           "scansar_burst_data_information.number_of_overlap_lines_with_adjacent_bursts"]
+    mask = optional_header if optional_header is not None else rng.randrange(0, 16)
+    for b, name in enumerate(opt):
+        if not (mask >> b) & 1:
+            fd[name] = None
+        else:
+            w = synth.field("img_fd", name)["width"]
+            fd[name] = str(rng.randrange(0, 10 ** w))
+    for k in list(fd):
+        if ("img_fd", k) in CONSTRAINED:
+            del fd[k]
+    return {"type": typ, "lines": lines, "pixels": pixels, "fd": fd, "prefix": prefix,
+            "rows": sample_rows(rng_np, typ, lines, pixels, pattern)}, {"optional_header_mask": mask}
+
+
+POLS = ["HH", "HV", "VH", "VV"]
+
+
+def rich_product(rng, np_seed, level=None, n_images=None, scans=None, geoms=None, max_lines=12, max_pixels=8,
+                 pattern=None, classes=None, leader_kw=None, summary_order=None, newline="\n", spare=False,
+                 mode=None, optproj=None):
+    """a product in which every record carries random admissible content.
+
+    -> (files, info) ; info has names, order, per-image models (type/lines/pixels), leader/volume parameters
+    """
+    import numpy as np
+
+    level = level or rng.choice(["1.1", "1.5", "3.1"])
+    tag, typ, _ = LEVELS[level]
+    if scans is None:
+        scans = [None] if rng.random() < 0.6 else [f"{rng.choice('BF')}{k}" for k in sorted(rng.sample(range(1, 8), rng.randrange(1, 4)))]
+    n_pols = n_images or rng.choice([1, 1, 2, 2, 4])
+    pols = POLS[:n_pols] if rng.random() < 0.5 else sorted(rng.sample(POLS, n_pols), key=POLS.index)
+    if len(pols) * len(scans) > 8:
+        pols = pols[: max(1, 8 // len(scans))]
+    names = product_names(level, mode=mode or ("WBD" if scans != [None] else "FBD"), pols=pols, scans=scans, optproj=optproj)
+    files, images = {}, {}
+    for k, n in enumerate(names["imgs"]):
+        lines, pixels = geoms[k] if geoms else (rng.randrange(1, max_lines + 1), rng.randrange(1, max_pixels + 1))
+        im, iminfo = full_image(rng, np.random.default_rng([*(np_seed if isinstance(np_seed, (list, tuple)) else [np_seed]), k]), typ, lines, pixels,
+                                pattern or rng.choice(["random", "edges", "index"]), classes, spare=spare)
+        files[n] = synth.image_bytes(im)
+        images[n] = {"type": typ, "lines": lines, "pixels": pixels, **iminfo}
+    led, ledinfo = full_leader(rng, classes=classes, spare=spare, **(leader_kw or {}))
+    files[names["led"]] = synth.leader_bytes(led)
+    vol, volinfo = full_volume(rng, classes=classes, spare=spare)
+    files[names["vol"]] = synth.volume_bytes(vol)
+    files[names["trl"]] = synth.trailer_bytes({})
+    order = [names["vol"], names["led"], *names["imgs"], names["trl"]]
+    entries = synth.default_summary_entries(order, tag, names["pid"], names["scene"],
+                                            [(images[n]["pixels"], images[n]["lines"]) for n in names["imgs"][:1]])
+    if summary_order == "shuffle":
+        rng.shuffle(entries)
+    files["summary.txt"] = synth.summary_text(entries, newline).encode()
+    return files, {"names": names, "order": order, "images": images, "leader": ledinfo, "volume": volinfo, "level": level}
